@@ -2119,7 +2119,27 @@ fn main() {
     // panics of the code under test are caught per poll; keep the default hook quiet
     std::panic::set_hook(Box::new(|_| {}));
     let mut rng = Rng::new(seed);
-    if kinds.len() == 3 && kinds[0] == "--scenario" {
+    if kinds.len() == 2 && kinds[0] == "--replay" {
+        // every `scenario=<kind> seed=<n>` named in a replay file written by ./check
+        let text = std::fs::read_to_string(&kinds[1]).unwrap_or_default();
+        let mut seen = std::collections::BTreeSet::new();
+        for (i, _) in text.match_indices("scenario=") {
+            let rest = &text[i + 9..];
+            let kind = rest.chars().next().unwrap_or('A');
+            if let Some(j) = rest.find("seed=") {
+                let digits: String = rest[j + 5..].chars().take_while(|c| c.is_ascii_digit()).collect();
+                if let Ok(s) = digits.parse::<u64>() {
+                    if j < 6 && seen.insert((kind, s)) {
+                        match kind {
+                            'A' => scenario_a(&mut out, s),
+                            'B' => scenario_b(&mut out, s, false),
+                            _ => scenario_b(&mut out, s, true),
+                        }
+                    }
+                }
+            }
+        }
+    } else if kinds.len() == 3 && kinds[0] == "--scenario" {
         // replay of one scenario: sys <outdir> 0 0 --scenario <A|B|F> <scenario seed>
         let s: u64 = kinds[2].parse().expect("scenario seed");
         match kinds[1].as_str() {
@@ -2128,7 +2148,8 @@ fn main() {
             _ => scenario_b(&mut out, s, true),
         }
     }
-    for i in 0..cases {
+    let replaying = kinds.first().map(|k| k.starts_with("--")).unwrap_or(false);
+    for i in 0..(if replaying { 0 } else { cases }) {
         let s = rng.next();
         match kinds[(i as usize) % kinds.len()].as_str() {
             "A" => scenario_a(&mut out, s),
